@@ -2,7 +2,7 @@
 (* C10: the binary pack format.
    record "mol": [m (projection, see Pack), bytes (pack(compressed = FALSE) produced by the .pyx source), back (projection of
                   unpack(bytes)), plen (pack_len), dispatch (1 iff chython.unpack gave the same), shipped (bytes of a published pack
-                  that decoded to m, or <<>>), dunder (bytes(m), decompressed), cs / cref (stereo-free canonical strings of the decoded pack and of the matching CSV row), exc]
+                  that decoded to m, or <<>>), dunder (bytes(m), decompressed), v0 (the same molecule in the earlier layout, header byte 0, transcoded by the harness), back0 / exc0 / dispatch0 (what the decoder makes of it), cs / cref (stereo-free canonical strings of the decoded pack and of the matching CSV row), exc]
    record "rxn": [r, a, p (molecule counts per role), packs (bytes of every molecule in order), bytes (reaction pack), plen (<<r counts,
                   a counts, p counts>> reported by pack_len), natoms (true atom counts in order), br, ba, bp (counts per role after
                   unpack), bpacks (bytes of the unpacked molecules re-packed, in reactants, reagents, products order), exc] *)
@@ -24,6 +24,11 @@ MolVerdict(r) ==
               If(\E k \in 1..Len(r.m.atoms) : ~SameAtom(r.m.atoms[k], r.back.atoms[k]), "unpack-changes-the-molecule")
               \cup If(\E k \in 1..Len(r.m.atoms) : r.back.atoms[k].xh # HalfBits(r.m.atoms[k].x) \/ r.back.atoms[k].yh # HalfBits(r.m.atoms[k].y), "coordinates-not-half-precision"))
         \cup If(r.dunder # r.bytes, "bytes()-is-not-the-current-pack")
+        \cup If(r.v0 # EncodeV0(r.m), "machinery:legacy-transcoder-differs-from-the-layout")
+        \cup (IF r.v0 # EncodeV0(r.m) THEN {} ELSE
+              If(r.exc0 # "", "legacy-layout-not-read:" \o r.exc0)
+              \cup If(r.exc0 = "" /\ r.back0 # r.back, "legacy-layout-decodes-to-another-molecule")
+              \cup If(r.exc0 = "" /\ r.dispatch0 # 1, "chython.unpack-dispatch-of-the-legacy-layout"))
         \cup If(r.plen # Len(r.m.atoms), "pack_len")
         \cup If(r.dispatch # 1, "chython.unpack-dispatch")
         \cup If(Len(r.shipped) > 0 /\ r.shipped # r.bytes, "published-pack-does-not-re-encode")
